@@ -5,6 +5,6 @@ From PushModel Require Import Base.Sx Base.Machine Base.F32 Model.Item Model.Sta
 Import ListNotations.
 Section All.
   Context {FO : FloatOps}.
-  Definition full_table : list (string * sem) := tbl_core ++ tbl_bvec_pinned ++ tbl_ivec_pinned ++ tbl_fvec_pinned.
+  Definition full_table : list (string * sem) := tbl_core ++ tbl_bvec ++ tbl_ivec ++ tbl_fvec.
   Definition full_registry : registry := mk_registry full_table.
 End All.
